@@ -309,7 +309,7 @@ type fieldAccess struct {
 	field *types.Var
 	write bool
 	held  lockSet
-	fresh bool // the struct was allocated in this function (constructor)
+	fresh bool            // the struct was allocated in this function (constructor)
 	at    ssa.Instruction // where the shared memory is touched when that is not the field access itself (element of a loaded slice/map)
 }
 
